@@ -17,6 +17,7 @@ Chars(s) ==   \* the literal tokens and the tiny strings used by the shapes, as 
     [] s = "c" -> <<"c">> [] s = "ms" -> <<"m", "s">> [] s = "g" -> <<"g">> [] s = "m" -> <<"m">>
     [] s = "h" -> <<"h">> [] s = "d" -> <<"d">> [] s = "s" -> <<"s">>
     [] s = "p" -> <<"p">> [] s = "a" -> <<"a">> [] s = "ab" -> <<"a", "b">>
+    [] s = ".p" -> <<".", "p">> [] s = ".p.q" -> <<".", "p", ".", "q">>
     [] s = "dk" -> <<"d", "k">> [] s = "dv" -> <<"d", "v">> [] s = "db" -> <<"d", "b">>
     [] s = "k" -> <<"k">> [] s = "v" -> <<"v">> [] s = "b" -> <<"b">> [] s = "e" -> <<"e">> [] s = "w" -> <<"w">>
     [] s = "dc" -> <<"d", "c">> [] s = "oc" -> <<"o", "c">> [] s = "d2" -> <<"d", "2">> [] s = "v2" -> <<"v", "2">> [] s = "v3" -> <<"v", "3">>
@@ -47,7 +48,7 @@ MacroEntries == Entries \ {"incr", "decr"}
 VShapes(e) == IF IsVec(e) THEN {"p0", "p1", "p2", "p3"} ELSE {"single"}
 Opts == {"rate", "tags", "cid", "ts"}
 \* prefix shapes: "", "p", "p.", "p..", ".."  as <<base, trailing dots>>
-Prefixes == {<<"", 0>>, <<"p", 0>>, <<"p", 1>>, <<"p", 2>>, <<"", 2>>}
+Prefixes == {<<"", 0>>, <<"p", 0>>, <<"p", 1>>, <<"p", 2>>, <<"", 2>>, <<".p", 0>>, <<".p.q", 2>>}
 \* (dkv_b repeats the KEY of dkv with another value; kv_b repeats the key of kv; dkv_c is a call tag with a default tag's key:
 \*  every one of them must be carried, nothing is merged or overwritten)
 DTagLists == {<<>>, <<"dkv">>, <<"dbare">>, <<"dkv", "dbare">>, <<"dbare", "dkv">>, <<"dkv", "dbare", "dkv_b">>}
